@@ -81,3 +81,10 @@ def run_program(program, choices=(), preempt_at=(), transport="pipe", backend_b=
     out.unhandled = s.unhandled()
     out.lines = s.lines
     return out
+
+
+def late_wakeups(sched):
+    """timed waits with one of the harness's long safety timeouts (>= 30 virtual seconds) that ended BY that timeout:
+    virtual time only advances when every thread is blocked, so such a wait was never woken - a lost wake-up that in
+    real time is a 60 s stall (and a hang forever for an untimed wait)"""
+    return [e for e in sched.expired if e[2] is not None and e[2] >= 30]
